@@ -116,6 +116,17 @@ type vTok struct{ id int }
 
 // vPayload returns an arbitrary payload of one of several dynamic kinds (forks on the kind;
 // scalar contents stay symbolic).
+// vPayloadE: vPayload plus payloads whose type happens to implement error (data, not failures)
+func vPayloadE(label string) any {
+	switch vChoice(label+".ekind", 3) {
+	case 1:
+		return &vError{id: 33}
+	case 2:
+		return vCustomErr{code: vNondet[int](label + ".code")}
+	}
+	return vPayload(label)
+}
+
 func vPayload(label string) any {
 	switch vChoice(label+".kind", 5) {
 	case 0:
